@@ -7,7 +7,7 @@ Inductive c3case := C3 (c : fcase) (lookups : list (id * id * option (option id)
 
 Definition ostr_eqb (a b : str) := str_eqb a b.
 
-Definition final_state (c : fcase) : forest := run (cfg_of c) (init_of c) (fc_ops c).
+Definition final_state (c : fcase) : forest := crun (cfg_of c) (init_of c) (fc_ops c).
 
 Definition agree_final (c : fcase) : bool :=
   let s := final_state c in
@@ -56,14 +56,16 @@ Definition prop_C03_final (c : fcase) (lk : list (id * id * option (option id)))
         negb (Nat.eqb (root s st) (root s tg))
         || match r with Some (Some i) => Nat.eqb i tg | _ => false end) lk.
 
-Definition prop_C03_step (before : forest) (o : op) (after : forest) (accepted : bool) : bool :=
-  sibling_names_unique_b after.
+(* per step: sibling names stay unique, and a refused attachment (also one refused inside a
+   constructor call) leaves the tree unchanged *)
+Definition prop_C03_step (cfg : config) (before : forest) (o : cop) (after : forest) (accepted : bool) : bool :=
+  sibling_names_unique_b after && prop_C02_cstep cfg before o after accepted.
 
 Definition check_C03 (k : c3case) : nat :=
   let '(C3 c lk) := k in
   if unmodelled_trace (cfg_of c) (init_of c) (fc_ops c) then F_SKIP else
   flag (negb (agree_trace c (init_of c) (fc_ops c) (fc_obs c) && agree_final c && agree_lookups c lk)) F_DISAGREE
-  + flag (negb (impl_trace_all c prop_C03_step (init_of c) (fc_ops c) (fc_obs c) && prop_C03_final c lk)) F_PROPFAIL.
+  + flag (negb (impl_trace_all c (prop_C03_step (cfg_of c)) (init_of c) (fc_ops c) (fc_obs c) && prop_C03_final c lk)) F_PROPFAIL.
 
 (* ---------------- C20 (forest share) ---------------- *)
 (* the same history with the checks on (fc_obs) and off (obs_off, run in a child interpreter
